@@ -439,7 +439,7 @@ def run_grouping(chk, tier, rng, seed):
     """spec/Grouping.tla exhaustively, then the enumerated batches against the real gradient()."""
     behs = []
     for ns in (1, 2):
-        res = tlc.run("Grouping", constants={"NSites": ns, "MaxRows": 3},
+        res = tlc.run("Grouping", constants={"NSites": ns, "MaxRows": 2 if (ns == 2 and tier == "quick") else 3},
                       defs={"Tok(s, b)": "(s + 1) * 1000 + (b + 1) * 37 + s * b"},
                       invariants=["GroupingIsSum", "Partition", "Sorted", "MC_Export"], extends_extra=["Json"],
                       extra_text='MC_Export == pc = "end" => PrintT(ToJson([n |-> NSites, batch |-> batch, uniq |-> uniq]))',
